@@ -25,6 +25,34 @@ fn main() {
         "c08" => c08::main(&args[1..]),
         "c03" | "c04" | "c05" | "c10" | "c11" => ppo::main(&args[1..], &args[0]),
         "parse" => { let k = skel::Kinds::load(&args[1]); println!("{}", parsers::run(&args[2], Some(Some(1024)), &args[3], &k, true).line()); }
+        // debugging aid: observation line of one parser entry on a file at a given memo capacity
+        "parsef" => { let k = skel::Kinds::load(&args[1]); let text = std::fs::read_to_string(&args[4]).unwrap();
+            let cap = if args[3] == "none" { None } else { Some(args[3].parse().unwrap()) };
+            println!("{}", parsers::run(&args[2], Some(cap), &text, &k, false).line()); }
+        // memo table after a parse with unbounded capacity: probes every (production, offset, flag)
+        "memof" => { let text = std::fs::read_to_string(&args[3]).unwrap();
+            println!("{}", parsers::memo_dump(&args[2], &text, &std::fs::read_to_string(format!("{}/names.txt", args[1])).unwrap())); }
+        // debugging aid: preprocess a file (cwd-relative includes) and print the text or the error
+        "ppf" => { use crate::api::*;
+            let d = no_defines(); let inc: Vec<std::path::PathBuf> = args[3..].iter().map(std::path::PathBuf::from).collect();
+            match preprocess(std::path::PathBuf::from(&args[1]), &d, &inc, args[2] == "strip", false) { Ok((t, _)) => print!("{}", t.text()), Err(e) => println!("ERR {}", err_str(&e)) } }
+        // debugging aid: whitespace-free event dump of the tree of a file (one line per event)
+        "shapedump" => {
+            use crate::api::*;
+            let text = std::fs::read_to_string(&args[1]).unwrap();
+            if let Ok(c) = std::env::var("SVH_CAP") { sv_parser_parser::utils::verif::set_memo_capacity(if c == "none" { None } else { Some(c.parse().unwrap()) }); }
+            match crate::c12::parse(&text) {
+                Err(e) => println!("ERR {}", err_str(&e)),
+                Ok((tree, _)) => { let mut ws = 0usize; let mut depth = 0usize;
+                    for ev in tree.into_iter().event() { match ev {
+                        NodeEvent::Enter(RefNode::WhiteSpace(_)) => ws += 1, NodeEvent::Leave(RefNode::WhiteSpace(_)) => ws -= 1,
+                        NodeEvent::Enter(RefNode::Locate(l)) if ws == 0 => println!("{}'{}'", " ".repeat(depth), tree.get_str(l).unwrap_or("?")),
+                        NodeEvent::Enter(x) if ws == 0 => { println!("{}{}", " ".repeat(depth), x); depth += 1; }
+                        NodeEvent::Leave(RefNode::Locate(_)) => {}
+                        NodeEvent::Leave(_) if ws == 0 => depth -= 1,
+                        _ => {} } } }
+            }
+        }
         x => { eprintln!("unknown command {}", x); std::process::exit(2); }
     }
 }
